@@ -160,3 +160,17 @@ def psd_dm(rng, mol, nocc=None, jitter=0.3):
     q, _ = np.linalg.qr(c)
     c = x.dot(q)
     return c.dot(c.T)
+
+
+def core_dm(mol, nocc=None):
+    """Occupied orbitals of the core Hamiltonian: a physical, non-converged density matrix whose density
+    has no nodal surfaces in the valence region (random one-electron orbitals do, and there tau/rho
+    diverges so that the large-exponent guard of the NLDF plan rightly refuses)."""
+    import scipy.linalg
+    from pyscf import scf
+    if nocc is None:
+        nocc = max(1, mol.nelectron // 2)
+    h1 = scf.hf.get_hcore(mol)
+    s1 = mol.intor("int1e_ovlp")
+    _, c = scipy.linalg.eigh(h1, s1)
+    return c[:, :nocc].dot(c[:, :nocc].T)
